@@ -249,6 +249,23 @@ def check_histories(W, rec):
     class R(Request):
         parameter_storage_class = MultiDict
 
+    # a query mapping of any size is recovered, whatever limits the request class puts on *form* parts
+    class Rsmall(Request):
+        max_form_parts = 5
+
+    for nfields, cls_ in ((8, Rsmall), (12, Rsmall), (1001, Request), (1500, Request), (3, Rsmall)):
+        qm = MultiDict([(f"k{i % (nfields // 2 or 1)}", f"v{i} \u00e9") for i in range(nfields)])
+        rq = EnvironBuilder("/p", query_string=qm).get_request(cls_)
+        rec.case()
+        rec.nontrivial(("many-query-fields", nfields, cls_.__name__))
+        rec.observe("queries_with_many_fields")
+        try:
+            got_q = list(rq.args.items(multi=True))
+        except Exception as e:  # noqa: BLE001
+            got_q = f"{type(e).__name__}: {e}"
+        if got_q != list(qm.items(multi=True)):
+            rec.violation("C15/builder-args-not-recovered", f"a query mapping of {nfields} fields (request class with max_form_parts={cls_.max_form_parts}): {str(got_q)[:120]}", {"family": "many-query-fields", "fields": nfields}, monitor="identity")
+            break
     for qs in ("a=1&b=%C3%A9&a=2", "", "k"):
         first = EnvironBuilder("/p", query_string=qs).get_request(R)
         before = list(first.args.items(multi=True))
@@ -414,7 +431,7 @@ def check_dispatcher(W, rec, idx, of):
             for nn in range(0, 4):
                 for parts in itertools.product(segs if nn == 3 else segs_ext, repeat=nn):
                     for trail in ("", "/"):
-                        for sn in ("", "/root"):
+                        for sn in ("", "/root", "/a", "/x/a/b"):  # (also script names that end like a mount: a dispatcher below a dispatcher)
                             p = "/" + "/".join(parts) + (trail if parts else "")
                             rec.case()
                             rec.observe("dispatcher_cells")
